@@ -842,15 +842,15 @@ class Explorer:
             return False
         zid = z.get_id()
         k = self.bdec.get(zid)
-        if k is not None:  # the same condition was already decided on this path
-            return k
+        if k is not None:  # the same condition was already decided on this path (the term is kept alive, so its id is not reused)
+            return k[0]
         if self.pos < len(self.prefix):
             kind, b = self.prefix[self.pos]
             if kind != 'b':
                 raise EngineError('non-deterministic harness: expected branch decision')
             self.pos += 1
             self.decisions.append(('b', b))
-            self.bdec[zid] = b
+            self.bdec[zid] = (b, z)
             return b
         self._budget()
         m = self._get_model()
@@ -867,7 +867,7 @@ class Explorer:
         if self.pos > self.max_depth:
             self.max_depth = self.pos
         self._add(z if b else z3.Not(z), keeps_model=True)
-        self.bdec[zid] = b
+        self.bdec[zid] = (b, z)
         return b
 
     def _pin(self, z, v, aid=None, replay=False):
